@@ -109,6 +109,7 @@ def sample_models(ctx, name, inst, n, tag):
         return
     with msolve.model_sampler() as ms:
         for k in range(n):
+            ms.mode = [None, "dense", "sparse", "dense", "sparse", None][k % 6]
             try:
                 is_sat, got = spec.solve(inst)
             except Exception as e:
@@ -117,7 +118,9 @@ def sample_models(ctx, name, inst, n, tag):
                 return
             if not is_sat:
                 ctx.count("c11.sampler_exhausted")
-                return
+                if ms.mode is None:
+                    return
+                continue  # no denser / sparser model exists: try the other direction
             ctx.count("c11.models_sampled")
             ctx.count("c11.models_sampled." + name)
             if not spec.check_model(inst, got):
@@ -223,7 +226,7 @@ def run(ctx):
             with ctx.guard(90):
                 judge_planted(ctx, name, r[0], r[1])
             with ctx.guard(90):
-                sample_models(ctx, name, r[0], 3 if not thorough else 6, "planted")
+                sample_models(ctx, name, r[0], 4 if not thorough else 6, "planted")
     mst.probe = 0
     msolve.uninstall()
 
